@@ -5,6 +5,7 @@
     (notes/fixes/C05-feerate-no-truncation.patch); [C05_fee_truncation_refuted] keeps the
     witness against the estimator as found. *)
 From VLS Require Import Base.U64 Model.CommitmentPolicy Proofs.CommitmentPolicyProofs.
+From VLS Require Gen.TxUtilGen Proofs.TxUtilGenProofs.
 
 (** Under a non-permissive filter, whichever entry point accepts a commitment (simple or
     on-chain validator, counterparty or holder side), for every policy, setup, chain state,
@@ -340,3 +341,30 @@ Check C05_accept_implies_bounds.
 Check C05_setup.
 Check C05_channel_value.
 Check C05_onchain.
+
+(** The two fee helpers behind every fee-range bound above (and behind the fee checks of the
+    mutual-close, sweep and on-chain models, which use the same definitions) are the ones in the
+    source: Gen/TxUtilGen.v is the statement-by-statement translation of
+    [estimate_feerate_per_kw] and [expected_commitment_tx_weight]
+    (vls-core/src/util/transaction_utils.rs, regenerated on every run by tools/gen_rustfn.py).
+    For every u64 fee and every non-zero weight the estimate is, in both build profiles, the
+    model's value - no panic, no wrap, no truncation; a weight of 0 is a panic. *)
+Theorem C05_feerate_estimate_is_source :
+  forall (prof : profile) (fee w : N),
+    fee <= U64MAX -> 0 < w ->
+    TxUtilGen.gen_estimate_feerate_per_kw prof fee w = Val (estimate_feerate_per_kw fee w).
+Proof. exact TxUtilGenProofs.gen_estimate_is_model. Qed.
+Print Assumptions C05_feerate_estimate_is_source.
+
+Theorem C05_feerate_estimate_zero_weight_panics :
+  forall (prof : profile) (fee : N),
+    fee <= U64MAX -> TxUtilGen.gen_estimate_feerate_per_kw prof fee 0 = Trap.
+Proof. exact TxUtilGenProofs.gen_estimate_zero_weight. Qed.
+Print Assumptions C05_feerate_estimate_zero_weight_panics.
+
+Theorem C05_commitment_weight_is_source :
+  forall (prof : profile) (anchors : bool) (n : N),
+    n * 172 + 1124 <= U64MAX ->
+    TxUtilGen.gen_expected_commitment_tx_weight prof anchors n = Val (expected_weight anchors n).
+Proof. exact TxUtilGenProofs.gen_weight_is_model. Qed.
+Print Assumptions C05_commitment_weight_is_source.
